@@ -57,6 +57,23 @@ func (s *recSink) fileSame() bool {
 func (s *recSink) Write(p []byte) (int, error) {
 	s.mu.Lock()
 	defer s.mu.Unlock()
+	if s.dangling && len(p) > 0 && p[0] == '\n' {
+		// a writer that knows the log ends in a torn fragment terminates it first: what follows the
+		// newline is on a line of its own
+		s.dangling = false
+		if len(p) == 1 {
+			return 1, nil // (just the terminator: not a record, not counted)
+		}
+		n, err := s.writeLocked(p[1:])
+		if err == nil {
+			n++
+		}
+		return n, err
+	}
+	return s.writeLocked(p)
+}
+
+func (s *recSink) writeLocked(p []byte) (int, error) {
 	s.nWrite++
 	ev := sinkEvent{Kind: "write", Data: append([]byte{}, p...), FileSame: s.fileSame()}
 	if s.dangling && len(p) > 0 {
@@ -152,6 +169,10 @@ func genAuditCase(rt *rapid.T) AuditCase {
 	c.Pre = rapid.SliceOfN(rapid.Custom(func(rt *rapid.T) dbx.Op {
 		return dbx.GenOp(rt, c06Names, []string{"put", "put", "put", "activate", "delver"}, 1)
 	}), h.LenBias(rt, 0, 8), 8).Draw(rt, "pre")
+	if k := dbx.GenDeep(rt); k > 0 {
+		// the secret the calls are about has been rotated many times before
+		c.Pre = append(dbx.DeepPuts("a", k), c.Pre...)
+	}
 	n := rapid.IntRange(1, 2).Draw(rt, "ncallers")
 	for i := 0; i < n; i++ {
 		rs := genRuleSet(rt)
@@ -208,6 +229,9 @@ func runC06(t *testing.T, c AuditCase) (*h.Violation, h.Info) {
 	}
 	tr := dbx.NewTracker()
 	tr.Wire = c.HTTP
+	if len(c.Pre) > 60 {
+		info.Class("a-secret-with-more-than-60-versions")
+	}
 	for i, op := range c.Pre {
 		ver := tr.Resolve(op)
 		want := tr.Expect(su.Rules, op, ver)
